@@ -16,7 +16,7 @@ from engines.x86sym import orcentry
 from engines.x86sym.machine import byte_name
 from engines import oracle as oracle_mod
 
-ENGINE_VERSION = 'x86check-10'
+ENGINE_VERSION = 'x86check-11'
 CALLEE_SAVED = ('rbx', 'rbp', 'r12', 'r13', 'r14', 'r15')
 
 SSE_BITS = {'sse2': 1, 'sse3': 2, 'ssse3': 4, 'sse4.1': 8, 'sse4.2': 16, 'avx': 1 << 10, 'avx2': 1 << 11}
@@ -368,6 +368,25 @@ def abstract_fp(solver_q, g, w, rounds=6):
     return (g, w) if any_ else (None, None)
 
 
+LAST_MODEL = [None]
+
+
+def classify_ftz(qf, wrong, inclass, model):
+    """A disagreement was found.  -> 'bad' (a disagreement outside the flush-to-zero boundary class exists, or the one found is
+    outside it), 'bad-ftz' (every disagreement is inside the class), 'bad-ftz-undecided' (the one found is inside the class and
+    the solver did not decide within its budget whether others exist)."""
+    r2, m2 = qf(z3.And(wrong, z3.Not(inclass)))
+    if r2 == z3.unsat:
+        return 'bad-ftz', None
+    if r2 == z3.sat:
+        return 'bad', str(m2)[:600]
+    try:
+        inside = model is not None and z3.is_true(model.eval(inclass, model_completion=True))
+    except Exception:
+        inside = False
+    return ('bad-ftz-undecided', None) if inside else ('bad', None)
+
+
 def prove_equal(solver_q, got, want, wrong_of=None, depth=2):
     """-> 'ok' | ('bad', model) | 'unknown'.  Tries syntactic equality after normalisation, then operand-wise proofs for
     identical top-level operators (helps multiplications whose operands are equal but differently written), then the
@@ -412,6 +431,7 @@ def prove_equal(solver_q, got, want, wrong_of=None, depth=2):
     if r == z3.unsat:
         return 'ok'
     if r == z3.sat:
+        LAST_MODEL[0] = m
         return ('bad', str(m)[:600])
     return 'unknown'
 
@@ -621,12 +641,11 @@ def check_program(prog, target, optable, sem, n_max=None, m_max=2, query_timeout
                                               (lambda a_, b_: z3.And(a_ != b_, z3.Not(z3.And(isnan_bits(a_), isnan_bits(b_)))))
                                         pr_ = prove_equal(lambda w_: q(data_solver, w_), gl, wl, wrong_of=wf_)
                                         if isinstance(pr_, tuple):
-                                            r2, _m = q(data_solver, z3.And(wf_(gl, wl), z3.Not(ftz_boundary(gl, wl))))
-                                            if r2 == z3.unsat:
-                                                pr_ = ('bad-ftz', pr_[1])
+                                            cls_, m2_ = classify_ftz(lambda w_: q(data_solver, w_), wf_(gl, wl), ftz_boundary(gl, wl), LAST_MODEL[0])
+                                            pr_ = (cls_, m2_ or pr_[1])
                                         vv = ('ok', None) if pr_ == 'ok' else ('unknown', None) if pr_ == 'unknown' else pr_
                                         verdicts[kk] = vv
-                                    if vv[0] != 'ok' and (worst is None or vv[0] == 'bad'):
+                                    if vv[0] != 'ok' and (worst is None or vv[0] == 'bad' or (vv[0] == 'bad-ftz-undecided' and worst[0] == 'bad-ftz')):
                                         worst = vv
                                 verdicts[(cg.get_id(), cw.get_id())] = worst or ('ok', None)
                             k = (cg.get_id(), cw.get_id())
@@ -643,15 +662,18 @@ def check_program(prog, target, optable, sem, n_max=None, m_max=2, query_timeout
                                 if isinstance(pr, tuple) and isfloat and fw and cg.size() == fw:
                                     # is every disagreement inside the x86 flush-to-zero boundary class (result tiny before rounding,
                                     # smallest normal after rounding)?  Then it is the recorded hardware-semantics finding, not a new one.
-                                    r2, _m = q(data_solver, z3.And(wf(cg, cw), z3.Not(ftz_boundary(cg, cw))))
-                                    if r2 == z3.unsat:
-                                        pr = ('bad-ftz', pr[1])
+                                    cls_, m2_ = classify_ftz(lambda w_: q(data_solver, w_), wf(cg, cw), ftz_boundary(cg, cw), LAST_MODEL[0])
+                                    pr = (cls_, m2_ or pr[1])
                                 v = ('ok', None) if pr == 'ok' else ('unknown', None) if pr == 'unknown' else pr
                                 verdicts[k] = v
                             if v[0] == 'bad':
                                 add('C01', 'dest %s row %d element %d != emulation (n=%d)' % (nm, row, i, nv_eff), dict(n=nv_eff, m=mv, model=v[1]))
                             elif v[0] == 'bad-ftz':
                                 add('C01', '[ftz-boundary] dest %s element differs from emulation only where the exact result is tiny before rounding and rounds to the smallest normal (x86 FTZ gives 0, emulation the smallest normal)' % nm, dict(n=nv_eff, m=mv, model=v[1]))
+                            elif v[0] == 'bad-ftz-undecided':
+                                add('C01', '[ftz-boundary] dest %s element differs from emulation where the exact result is tiny before rounding and rounds to the smallest normal (x86 FTZ gives 0, emulation the smallest normal); whether disagreements outside this class exist was not decided within the solver budget' % nm, dict(n=nv_eff, m=mv, model=v[1]))
+                                if 'ftz-undecided' not in res.get('notes', []):
+                                    res.setdefault('notes', []).append('ftz-undecided')
                             elif v[0] == 'unknown':
                                 res['inconclusive'].append('data equivalence %s[%d] unknown' % (nm, i))
                     # bytes outside [0, n*size) of each row must be untouched
